@@ -148,7 +148,7 @@ CLAIMS["C09"] = dict(
          "exactly where the polyline enters the rectangle (all 24 location pairs; the pass-through case takes its first crossing from the far "
          "end of the segment); nothing written while clipping one polyline is read while clipping the next; the cut itself, as a real-number formula: GetSegmentIntersectPt's "
          "point lies on both lines and GetSegmentIntersection's touching cases store an end point that lies on both lines (engine E14) and answer "
-         "'touching' exactly when it lies strictly between the other segment's ends, whichever way the side runs (48 cells); GetIntersection reports the side met first (76 cells); GetNextLocation's table.",
+         "'touching' exactly when it lies strictly between the other segment's ends, whichever way the side runs (48 cells); GetIntersection reports the side met first (76 cells); GetNextLocation's table. The location the line scan starts with is the truth about the first vertex, and the whole path is copied only when no vertex is off the boundary (START.location).",
     note="Partial: which rectangle edge GetIntersection tries, rounding, GetNextLocation's scan, the vertex order inside a piece and every tolerance of "
          "the statement (1.5 / 1 / 2 units) are NOT decided - the numeric content of C09 is out of reach of static analysis here.",
     technique="static analysis: abstract interpretation over orderings and the Location enum + loop-carried-state dataflow",
@@ -163,7 +163,7 @@ CLAIMS["C13"] = dict(
          "the cross-product predicates and the segment intersection are the textbook polynomials (engine E14), hence equivariant under "
          "translation, transposition and scaling as real-number formulas; the boolean convenience functions never hand a path parameter back as the result; every precision parameter "
          "reaches the scale / the ClipperD it is meant for (translation and integer scaling of decimal data); AddPaths_ carries no local from one "
-         "path of a call to the next (path order). GetClosestPointOnSegment is its defining polynomial identity (POLY.measure).",
+         "path of a call to the next (path order). GetClosestPointOnSegment is its defining polynomial identity (POLY.measure). Paths added after an Execute are sorted in whatever the order they were added in (SORTED.invalidate).",
     note="Permutation/rotation invariance of the sweep (IsValidAelOrder tie-breaking) and the algebraic identities are NOT decided.",
     technique="static analysis: table symmetries on the abstractly interpreted decision function + comparator axioms by exhaustive interpretation",
     design="§3 E3, §4 C13", engine="E3")
@@ -215,7 +215,7 @@ CLAIMS["C04"] = dict(
          "inclusion on every ordering; the builders' index loops over outrec_list_ re-read its size (rings split off while building are emitted in both modes); whatever GetPrevHotEdge returns, the ring's tentative owner is "
          "assigned (SetOwner, or nullptr) on every path on which tree output is possible; PointInOpPolygon reports a vertex on an edge as IsOn "
          "wherever a cross product decides a toggle, and the shortcuts in front of it let every point within the edge's closed x-range through; SetOwner keeps the ownership forest a forest "
-         "and never cuts the re-attached ring loose from what contained it (executed on all forests over four records).",
+         "and never cuts the re-attached ring loose from what contained it (executed on all forests over four records). In tree mode every ring split off by DoSplitOp / ProcessHorzJoins is tied to its other half through a splits list (SPLIT.recorded).",
     note="That the owners are right (containment, depth alternation, area equality) is NOT decided.",
     technique="static analysis: effect confinement of option-controlled regions + pipeline identity",
     design="§3 E10, §4 C04", engine="E10")
@@ -260,7 +260,7 @@ CLAIMS["C06"] = dict(
          "with and without USINGZ in every offsetter function, the join formulas as polynomial normal forms and the join dispatch on convex "
          "vertices (Miter within the limit else Square; Round; Bevel; Square), no return before the clean-up union except on 'no input / no "
          "output / error', the caller's delta_ read only where the orientation-corrected group_delta_ is derived, the result container emptied before anything is added (also through the member pointer that aliases it), and "
-         "independence of the groups of one ClipperOffset (loop-carried-state dataflow); tables extracted by interpreting the AST over the complete finite domain of the flags.",
+         "independence of the groups of one ClipperOffset (loop-carried-state dataflow); tables extracted by interpreting the AST over the complete finite domain of the flags. The join dispatch is judged with the threshold the code itself stores for a given MiterLimit (the computing and the comparing site together).",
     note="What the joined offset curves enclose - tolerance bands, the square join's corner construction (DoSquare), concave vertices, shrinking "
          "beyond the inradius - is NOT decided; the formulas are decided as real-number formulas, not their floating-point evaluation.",
     technique="static analysis: interpreted decision tables over complete finite flag domains + identities of polynomial normal forms",
@@ -270,7 +270,7 @@ CLAIMS["C19"] = dict(
     text="The swept-region equality is geometric and NOT decided. Decided statically are structural necessary conditions of detail::Minkowski and "
          "its four wrappers: empty input returns empty before anything is indexed; sum adds / difference subtracts the pattern point; the path's "
          "closing edge is swept iff isClosed and every other edge always (whether or not an operand's last vertex repeats its first); quad corners; no continue jumps over the previous-cursor updates; every quad is made positively oriented before the NonZero union; wrappers pass the "
-         "right flags and union on a clipper of their own; every call (recursion included) keeps pattern and path in their slots; PathD overloads scale in and out (dimensional analysis).",
+         "right flags and union on a clipper of their own; every call (recursion included) keeps pattern and path in their slots; PathD overloads scale in and out (dimensional analysis). Point::operator+ / operator- are the component-wise sum / difference in every build (MINK.point-ops).",
     note="That the union of the parallelograms equals the swept region within 2 units is NOT decided.",
     technique="static analysis: AST rules and small interpreted tables",
     design="§4 C19, §9", engine="E12")
